@@ -8,6 +8,7 @@ package main
 // once, in index order), and its log copy holds exactly the retained entries.
 
 import (
+	"errors"
 	"time"
 
 	"github.com/hashicorp/raft"
@@ -15,12 +16,25 @@ import (
 	"github.com/robustirc/robustirc/internal/raftstore"
 )
 
-type vSink struct{ chunks [][]byte }
+type vSink struct {
+	chunks [][]byte
+	failAt int // the failAt-th Write fails (0: none)
+	failed bool
+}
 
 func (s *vSink) Write(p []byte) (int, error) {
+	if s.failAt > 0 && len(s.chunks)+1 == s.failAt {
+		s.failed = true
+		return 0, errSinkFull
+	}
+	if s.failed {
+		return 0, errSinkFull
+	}
 	s.chunks = append(s.chunks, p)
 	return len(p), nil
 }
+
+var errSinkFull = errors.New("write: no space left on device")
 func (s *vSink) Close() error  { return nil }
 func (s *vSink) ID() string    { return "verif" }
 func (s *vSink) Cancel() error { return nil }
@@ -60,8 +74,13 @@ func verifHarness_C02_persist_restore() {
 		retained[k] = ircstore.GetLog(vEntryIdx[k], &l) == nil
 	}
 
-	sink := &vSink{}
+	// the sink may fail at any of its writes (disk full): raft finalises the snapshot unless Persist reports it
+	sink := &vSink{failAt: verifCase(2*n + 4)}
 	perr := rs.Persist(sink)
+	if sink.failed {
+		verifAssert(perr != nil, "failed-snapshot-write-is-reported")
+		return
+	}
 	verifAssert(perr == nil, "persist-succeeds")
 	if perr != nil {
 		return
